@@ -222,7 +222,11 @@ func checkSetIfNil() {
 		b := body(fd)
 		if len(b) >= 1 {
 			if ifs, ok := b[0].(*ast.IfStmt); ok && ifs.Init == nil {
-				if c, ok := ifs.Cond.(*ast.CallExpr); ok && str(c.Fun) == "atomic.CompareAndSwapPointer" && len(c.Args) == 3 && isNilExpr(c.Args[1]) {
+				cond := ifs.Cond
+				if u, ok := cond.(*ast.UnaryExpr); ok && u.Op == token.NOT { // `if !CAS { return load }; return v`
+					cond = u.X
+				}
+				if c, ok := cond.(*ast.CallExpr); ok && str(c.Fun) == "atomic.CompareAndSwapPointer" && len(c.Args) == 3 && isNilExpr(c.Args[1]) {
 					isCAS = true
 				}
 			}
@@ -245,10 +249,8 @@ func checkSetIfNil() {
 			}
 			return true
 		})
-		if isCAS && len(b) == 2 {
-			if r, ok := b[1].(*ast.ReturnStmt); !ok || len(calls(r, "atomic.LoadPointer")) != 1 {
-				probs = append(probs, "losing path does not return the atomically loaded value")
-			}
+		if isCAS && len(calls(fd, "atomic.LoadPointer")) != 1 {
+			probs = append(probs, "losing path does not return the atomically loaded value")
 		}
 	}
 	report("AtomicSetPointerIfNil", probs, fd)
